@@ -52,6 +52,16 @@ func runC12(args []string, in *bufio.Scanner, out *bufio.Writer) {
 			db.ExecuteSQL(fmt.Sprintf("INSERT INTO acct(k,g,v) VALUES (%d, %d, 0);", g*rpg+r, g))
 		}
 	}
+	mix := os.Getenv("VERIF_C12_MIX") != ""
+	if mix {
+		// extra statement kinds for the race workloads (C19): churn rows that are deleted / scanned, and a client issuing DDL
+		db.ExecuteSQL("CREATE TABLE churn(ky int, c int);")
+		for c := 0; c < clients; c++ {
+			for j := 0; j < 4; j++ {
+				db.ExecuteSQL(fmt.Sprintf("INSERT INTO churn(ky,c) VALUES (%d, %d);", c*1000+j, c))
+			}
+		}
+	}
 	var clock int64
 	var mu sync.Mutex
 	var done []c12call
@@ -70,6 +80,18 @@ func runC12(args []string, in *bufio.Scanner, out *bufio.Writer) {
 				} else {
 					g := rng.Intn(groups)
 					switch r := rng.Intn(10); {
+					case mix && rng.Intn(4) == 0:
+						// delete one of this client's own churn rows and put it back (DELETE statements that lose a lock conflict are rolled
+						// back: RollbackDelete next to other clients' scans of the same page)
+						switch rng.Intn(3) {
+						case 0:
+							// rows of two clients: neighbours' deletes overlap, the loser has marked some rows already
+							sql, desc = fmt.Sprintf("DELETE FROM churn WHERE c = %d OR c = %d;", c, (c+1)%clients), fmt.Sprintf("D %d", c)
+						case 1:
+							sql, desc = fmt.Sprintf("INSERT INTO churn(ky,c) VALUES (%d, %d);", c*1000+100+s, c), fmt.Sprintf("C %d", c)
+						default:
+							sql, desc = "SELECT ky FROM churn WHERE c >= 0 OR c >= 0;", "C 0"
+						}
 					case r < 4:
 						uniq := (c+1)*100000 + s
 						sql, desc = fmt.Sprintf("UPDATE acct SET v = %d WHERE g = %d;", uniq, g), fmt.Sprintf("W %d %d", g, uniq)
@@ -110,6 +132,18 @@ func runC12(args []string, in *bufio.Scanner, out *bufio.Writer) {
 		}(c)
 	}
 	stopBg := int32(0)
+	if mix {
+		// DDL next to the queries: the catalog's maps are written while other sessions resolve table names
+		wg.Add(1)
+		go func() {
+			defer wg.Done()
+			for i := 0; i < 12; i++ {
+				db.ExecuteSQL(fmt.Sprintf("CREATE TABLE ddl%d(a int, b varchar(32));", i))
+				db.ExecuteSQL(fmt.Sprintf("INSERT INTO ddl%d(a,b) VALUES (%d, 'x');", i, i))
+				time.Sleep(2 * time.Millisecond)
+			}
+		}()
+	}
 	if os.Getenv("VERIF_C12_BG") != "" {
 		// checkpoints and statistics updates running next to the clients (C19)
 		go func() {
